@@ -291,6 +291,33 @@ def concrete_run(case):
             if not tol_equal(float(got[row]), want):
                 return dict(reproduced=True, detail=f'row {row}: engine gives {float(got[row])}, mathematical value '
                                                     f'{want}')
+        # values of the free parameters supplied in a dictionary: those of the counterexample, then zero for each in turn
+        e2 = Builder(Values(concrete=asg)).build(spec)
+        free = sorted(e2.get_beta_values())
+        given = dict(case.get('given') or {})
+        trials = [{nm: float(given.get(nm, asg.get(f'b_{nm}', 0.0))) for nm in free}] if free else []
+        for nm in free:
+            t = dict(trials[0])
+            t[nm] = 0.0
+            trials.append(t)
+        for t in trials:
+            asg2 = dict(asg)
+            for nm, v in t.items():
+                asg2[f'b_{nm}'] = v
+            V2 = Values(concrete=asg2)
+            try:
+                got2 = Builder(Values(concrete=asg)).build(spec).get_value_c(database=Database('replay', df), betas=dict(t),
+                                                                            prepare_ids=True)
+            except Exception as e:  # noqa: BLE001
+                continue  # (outside the domain at these values)
+            for row in range(len(df)):
+                try:
+                    want = symx.evalnum(ref(spec, row, V2, info), {})
+                except (ValueError, ZeroDivisionError, OverflowError):
+                    continue
+                if not tol_equal(float(got2[row]), want):
+                    return dict(reproduced=True, detail=f'row {row}: with parameter values {t} supplied in a dictionary the engine gives '
+                                                        f'{float(got2[row])}, mathematical value {want}')
         return dict(reproduced=False, detail='values agree')
     # python evaluator
     want = symx.evalnum(ref(spec, 0, V, info), {})
@@ -462,6 +489,25 @@ def worker(item):
             for row in range(nrows):
                 v = prove(c, lift(got[row]) == refs[0][row], f'engine:row{row}')
                 obs.append((v.label, v.status, None, v.model))
+            # the same formula with the values of its free parameters supplied in a dictionary (any real numbers, zero included)
+            try:
+                import zlib
+                e2 = Builder(V).build(spec)
+                free = sorted(e2.get_beta_values())
+                if free and zlib.crc32(name.encode()) % 8 == 0:  # (an eighth of the shapes: the route, not the shape, is the subject)
+                    over = {nm: symx.SymReal(z3.Real(f'given_{nm}')) for nm in free}
+                    subs = [(V.beta(nm), over[nm].t) for nm in free]
+                    for row in range(nrows):
+                        for d in domain(spec, row, V, info):
+                            c.assume(z3.substitute(d, *subs))
+                    got2 = e2.get_value_c(database=db, betas=dict(over), prepare_ids=True)
+                    for row in range(nrows):
+                        v = prove(c, lift(got2[row]) == z3.substitute(refs[0][row], *subs), f'engine:betas-dict:row{row}')
+                        obs.append((v.label, v.status, None, v.model))
+            except symx.PathAbort:
+                raise
+            except Exception as e:  # noqa: BLE001
+                obs.append(('engine:betas-dict:no-exception', 'exc', f'{type(e).__name__}: {e}', None))
             m = symx.reachable(c)
             obs.append(('engine:reachable', 'proved' if m is not None else 'vacuous', None, m))
             return obs
@@ -493,6 +539,7 @@ def worker(item):
         return res
     res.stats(st)
     res.sample = dict(shape=name, mode=mode, spec=repr(spec)[:400])
+    replayed = {}
     for obs in results:
         for label, status, detail, model in obs:
             if status == 'skip':
@@ -516,6 +563,17 @@ def worker(item):
             vals = model_values(model, specs, nrows) if model is not None else \
                 {n: 1.0 for n in model_values_names(specs, nrows)}
             case = dict(spec=spec, values=vals, mode=mode)
+            if label.startswith('engine:betas-dict'):
+                if 'dict-route' in replayed:
+                    rp = replayed['dict-route']
+                else:
+                    if model is not None:
+                        case['given'] = {k[6:]: v for k, v in symx.model_to_assignment(model).items() if k.startswith('given_')}
+                    rp = replayed['dict-route'] = replay_subprocess(case)
+                case['values'] = rp.get('values', vals)
+                res.add(label, 'cex', key=site_key(mode, _root(name)), case=case,
+                        detail=(detail or '') + ' | replay: ' + str(rp.get('detail')), reproduced=bool(rp.get('reproduced')))
+                continue
             rp = replay_subprocess(case)
             case['values'] = rp.get('values', vals)
             res.add(label, 'cex', key=site_key(mode, _root(name)), case=case,
